@@ -296,6 +296,142 @@ def param_schema_contract(ptype, cls, inner_name):
     return FunctionContract("%s:JSONSerialization.param_schema" % MOD, PROP, setup, post, configure=configure,
                             name="JSONSerialization.param_schema[%s]" % ptype)
 
+LITERAL = {"int": "integer", "float": "number", "str": "string", "NoneType": "null"}
+
+
+def literal_objects(I, st, n):
+    """n arbitrary JSON literals (int, float, str or None — the key types of json_schema_literal_types)."""
+    U = I.U
+    objs = []
+    for k in range(n):
+        o = Sym(U.fresh("obj%d" % k))
+        st.pc.append(z3.Or(vm.ty(o.t) == vm.TAG["int"], vm.ty(o.t) == vm.TAG["float"], vm.ty(o.t) == vm.TAG["str"],
+                           o.t == U.NONE))
+        objs.append(o)
+    return objs
+
+
+def type_name_matches(I, tv, o):
+    """tv: the Val stored under 'type' in an anyOf alternative; o: the object it was generated for."""
+    U = I.U
+    t = I.term(tv)
+    return z3.And(z3.Implies(vm.ty(o.t) == vm.TAG["int"], t == U.lit("integer")),
+                  z3.Implies(vm.ty(o.t) == vm.TAG["float"], t == U.lit("number")),
+                  z3.Implies(vm.ty(o.t) == vm.TAG["str"], t == U.lit("string")),
+                  z3.Implies(o.t == U.NONE, t == U.lit("null")))
+
+
+def selector_schema_contract(kind, cls, n):
+    """<kind>_schema on a Selector whose `objects` are n arbitrary JSON literals: the schema is
+    {'anyOf': [one {'type': T} per listed object, T the JSON type of that object], 'enum': the objects}
+    — so every listed object (the only values the validator admits) is accepted by it."""
+    def setup(I, st):
+        objs = literal_objects(I, st, n)
+        lst = I.make_list(st, list(objs))
+        p, T = param_with(I, st, cls, {"_objects": lst, "names": Conc(None)})
+        c, m, fd = I.src.find_method("JSONSerialization", "%s_schema" % kind)
+        fv = FuncV("repo", module=m, cls=c, node=fd, self=ClsV("JSONSerialization"), qual="JSONSerialization.%s_schema" % kind)
+        return fv, [p], {}, {"objs": objs, "lst": lst, "symbols": {("obj%d" % k): o.t for k, o in enumerate(objs)}}
+
+    def post(I, info, st, oc):
+        if isinstance(oc, Raise):
+            return [("does-not-raise", z3.BoolVal(False))]
+        d = schema_dict(I, st, oc)
+        if d is None:
+            return [("returns-a-schema-object", z3.BoolVal(False))]
+        out = wellformed_clauses(I, st, d)
+        out.append(("schema has exactly anyOf and enum", z3.BoolVal(sorted(d) == ["anyOf", "enum"])))
+        if sorted(d) != ["anyOf", "enum"]:
+            return out
+        en = I.known_items(st, d["enum"])
+        out.append(("enum lists exactly the objects, in order",
+                    z3.BoolVal(en is not None and len(en) == n) if en is None or len(en) != n else
+                    z3.And([I.term(a) == o.t for a, o in zip(en, info["objs"])] + [z3.BoolVal(True)])))
+        alts = I.known_items(st, d["anyOf"])
+        if alts is None or len(alts) != n:
+            out.append(("anyOf has one alternative per object", z3.BoolVal(False)))
+            return out
+        for k, (a, o) in enumerate(zip(alts, info["objs"])):
+            ad = schema_dict(I, st, a)
+            if ad is None or list(ad) != ["type"]:
+                out.append(("anyOf[%d] == {'type': T}" % k, z3.BoolVal(False)))
+            else:
+                out.append(("anyOf[%d].type is the JSON type of objects[%d]" % (k, k), type_name_matches(I, ad["type"], o)))
+        return out
+    return FunctionContract("%s:JSONSerialization.%s_schema" % (MOD, kind), PROP, setup, post,
+                            name="JSONSerialization.%s_schema[%d objects]" % (kind, n))
+
+
+def listselector_schema_contract(n):
+    """listselector_schema with n JSON-literal objects: {'type': 'array', 'items': {'enum': the objects}};
+    with objects None: {'type': 'array'}."""
+    def setup(I, st):
+        if n is None:
+            lst, objs = Conc(None), []
+        else:
+            objs = literal_objects(I, st, n)
+            lst = I.make_list(st, list(objs))
+        p, T = param_with(I, st, "ListSelector", {"_objects": lst, "names": Conc(None)})
+        c, m, fd = I.src.find_method("JSONSerialization", "listselector_schema")
+        fv = FuncV("repo", module=m, cls=c, node=fd, self=ClsV("JSONSerialization"), qual="JSONSerialization.listselector_schema")
+        return fv, [p], {}, {"objs": objs, "symbols": {("obj%d" % k): o.t for k, o in enumerate(objs)}}
+
+    def post(I, info, st, oc):
+        if isinstance(oc, Raise):
+            return [("does-not-raise", z3.BoolVal(False))]
+        d = schema_dict(I, st, oc)
+        if d is None:
+            return [("returns-a-schema-object", z3.BoolVal(False))]
+        out = wellformed_clauses(I, st, d)
+        out.append(("type == 'array'", z3.BoolVal(isinstance(d.get("type"), Conc) and d["type"].py == "array")))
+        if n is None:
+            out.append(("no item constraint without declared objects", z3.BoolVal(sorted(d) == ["type"])))
+            return out
+        item = schema_dict(I, st, d.get("items")) if "items" in d else None
+        out.append(("items == {'enum': ...}", z3.BoolVal(item is not None and list(item) == ["enum"] and sorted(d) == ["items", "type"])))
+        if item is not None and "enum" in item:
+            en = I.known_items(st, item["enum"])
+            out.append(("items.enum lists exactly the objects, in order",
+                        z3.BoolVal(False) if en is None or len(en) != n else
+                        z3.And([I.term(a) == o.t for a, o in zip(en, info["objs"])] + [z3.BoolVal(True)])))
+        return out
+    return FunctionContract("%s:JSONSerialization.listselector_schema" % MOD, PROP, setup, post,
+                            name="JSONSerialization.listselector_schema[%s objects]" % ("no" if n is None else n))
+
+
+def list_schema_contract(case):
+    """list_schema: 'plain' (no item class) -> {'type': 'array'}; 'safe-plain' -> refuses with
+    UnsafeserializableException; 'int'/'float'/'str' item class -> items == {'type': T}."""
+    def setup(I, st):
+        it = Conc(None) if case in ("plain", "safe-plain") else ClsV(case)
+        p, T = param_with(I, st, "List", {"class_": it, "item_type": it})
+        c, m, fd = I.src.find_method("JSONSerialization", "list_schema")
+        fv = FuncV("repo", module=m, cls=c, node=fd, self=ClsV("JSONSerialization"), qual="JSONSerialization.list_schema")
+        return fv, [p], ({"safe": Conc(True)} if case == "safe-plain" else {}), {"symbols": {}}
+
+    def post(I, info, st, oc):
+        if case == "safe-plain":
+            return [("refuses with UnsafeserializableException",
+                     z3.BoolVal(isinstance(oc, Raise) and oc.cls == "UnsafeserializableException"))]
+        if isinstance(oc, Raise):
+            return [("does-not-raise", z3.BoolVal(False))]
+        d = schema_dict(I, st, oc)
+        if d is None:
+            return [("returns-a-schema-object", z3.BoolVal(False))]
+        out = wellformed_clauses(I, st, d)
+        out.append(("type == 'array'", z3.BoolVal(isinstance(d.get("type"), Conc) and d["type"].py == "array")))
+        if case == "plain":
+            out.append(("no item constraint without an item class", z3.BoolVal(sorted(d) == ["type"])))
+        else:
+            item = schema_dict(I, st, d.get("items")) if "items" in d else None
+            if item is None or list(item) != ["type"]:
+                out.append(("items == {'type': %r}" % LITERAL[case], z3.BoolVal(False)))
+            else:
+                out.append(("items == {'type': %r}" % LITERAL[case], I.term(item["type"]) == I.U.lit(LITERAL[case])))
+        return out
+    return FunctionContract("%s:JSONSerialization.list_schema" % MOD, PROP, setup, post,
+                            name="JSONSerialization.list_schema[%s]" % case)
+
 
 def contracts():
     C = [declare_numeric_bounds_contract(),
@@ -307,6 +443,13 @@ def contracts():
          fixed_schema_contract("calendardate", "CalendarDate", {"type": "string", "format": "date"}),
          fixed_schema_contract("dict", "Dict", {"type": "object"}),
          nullable_contract()]
+    for n in (0, 1, 2, 3):
+        C.append(selector_schema_contract("selector", "Selector", n))
+    C.append(selector_schema_contract("objectselector", "ObjectSelector", 2))
+    for n in (0, 2):
+        C.append(listselector_schema_contract(n))
+    for case in ("plain", "safe-plain", "int", "float", "str"):
+        C.append(list_schema_contract(case))
     for ptype, cls, inner in [("Number", "Number", "number_schema"), ("Integer", "Integer", "integer_schema"),
                               ("Tuple", "Tuple", "tuple_schema"), ("Range", "Range", "range_schema"),
                               ("Date", "Date", "date_schema"), ("List", "List", "list_schema"),
@@ -318,5 +461,5 @@ def contracts():
 
 ASSUMPTIONS = [
     "A-JSONSCHEMA: `accepts` is the draft-07 meaning of minimum/maximum/exclusiveMinimum/exclusiveMaximum/type/minItems/maxItems (cross-validated against the installed jsonschema validator in the bounded layer)",
-    "list/selector/classselector schemas (class__schema recursion, enum of objects) and the object-level loop of schema() are covered by the bounded layer only",
+    "selector/objectselector/listselector schemas are proved for 0..3 arbitrary JSON-literal objects (int, float, str, None; bounded in the NUMBER of objects only), list_schema for no item class and for the literal item classes; class__schema over tuples of classes and Parameterized item classes (recursion into another class's schema), classselector_schema, array/dataframe schemas and the object-level loop of schema() are covered by the bounded layer only",
 ]
